@@ -114,16 +114,22 @@ def run_variant(template_path, repo_root, workdir, rlimit=60, extra_args=None, m
     """one Verus run of one variant; if the only trouble is a solver resource limit, the run is repeated once with a
     larger budget (more solver effort can only turn 'undecided' into 'verified' or into a definite error)"""
     res = _run_variant_once(template_path, repo_root, workdir, rlimit, extra_args, mutate, threads, variant)
-    factor = int(os.environ.get('VERIF_RLIMIT_RETRY_FACTOR', '6'))
-    if res.status == 'inconclusive' and res.resource_fns and factor > 1 and not [e for e in res.errors if not e.get('resource')]:
-        m_rl = re.search(r'^//@ rlimit (\d+)', open(template_path).read(), re.M)
-        base = max(rlimit, int(m_rl.group(1))) if m_rl else rlimit
-        big = max(base + 60, min(base * factor, int(os.environ.get('VERIF_RLIMIT_RETRY_CAP', '360'))))
-        res2 = _run_variant_once(template_path, repo_root, workdir, big, extra_args, mutate, threads, variant)
-        res2.retried = 'solver resource limit at rlimit %d in %s; repeated with rlimit %d' % (base, ', '.join(res.resource_fns), big)
-        res2.wall_s += res.wall_s
-        return res2
+    if res.status == 'inconclusive' and res.resource_fns and not [e for e in res.errors if not e.get('resource')]:
+        return _retry_variant(res, template_path, repo_root, workdir, rlimit, extra_args, mutate, threads, variant)
     return res
+
+
+def _retry_variant(res, template_path, repo_root, workdir, rlimit, extra_args, mutate, threads, variant):
+    factor = int(os.environ.get('VERIF_RLIMIT_RETRY_FACTOR', '6'))
+    if factor <= 1:
+        return res
+    m_rl = re.search(r'^//@ rlimit (\d+)', open(template_path).read(), re.M)
+    base = max(rlimit, int(m_rl.group(1))) if m_rl else rlimit
+    big = max(base + 60, min(base * factor, int(os.environ.get('VERIF_RLIMIT_RETRY_CAP', '360'))))
+    res2 = _run_variant_once(template_path, repo_root, workdir, big, extra_args, mutate, threads, variant)
+    res2.retried = 'solver resource limit at rlimit %d in %s; repeated with rlimit %d' % (base, ', '.join(res.resource_fns), big)
+    res2.wall_s += res.wall_s
+    return res2
 
 
 def _run_variant_once(template_path, repo_root, workdir, rlimit=60, extra_args=None, mutate=None, threads=8, variant='main'):
@@ -280,9 +286,20 @@ def run_unit(template_path, repo_root, workdir, rlimit=60, extra_args=None, muta
         return run_variant(template_path, repo_root, workdir, rlimit, extra_args, mutate, threads, 'main')
     t0 = time.time()
     with concurrent.futures.ThreadPoolExecutor(max_workers=len(names)) as ex:
-        futs = [ex.submit(run_variant, template_path, repo_root, workdir, rlimit,
+        futs = [ex.submit(_run_variant_once, template_path, repo_root, workdir, rlimit,
                           (extra_args or []) + vargs.get(v, []), mutate, max(2, threads // 2), v) for v in names]
         parts = [f.result() for f in futs]
+    # a variant whose only trouble is a solver resource limit is repeated with a larger budget - unless another variant
+    # already reports a definite error in the same function (the verdict is settled then, more solver time changes nothing)
+    definite_fns = set(str(e['fn']) for p in parts for e in p.errors if not e.get('resource'))
+    redo = [i for i, p in enumerate(parts) if p.status == 'inconclusive' and p.resource_fns
+            and not [e for e in p.errors if not e.get('resource')] and not (set(p.resource_fns) <= definite_fns)]
+    if redo:
+        with concurrent.futures.ThreadPoolExecutor(max_workers=len(redo)) as ex:
+            futs = {i: ex.submit(_retry_variant, parts[i], template_path, repo_root, workdir, rlimit,
+                                 (extra_args or []) + vargs.get(names[i], []), mutate, max(2, threads // 2), names[i]) for i in redo}
+            for i, f in futs.items():
+                parts[i] = f.result()
     main = parts[0]
     main.variants = {p.variant: {'status': p.status, 'reason': p.reason, 'wall_s': round(p.wall_s, 2), 'cmd': p.cmd,
                                  'functions': {k: v['success'] for k, v in p.functions.items()}, 'retried': getattr(p, 'retried', None)} for p in parts}
